@@ -432,9 +432,10 @@ namespace cds { namespace intrusive {
                 size_t nLoadFactor        ///< Load factor
                 )
                 : m_nLoadFactor( nLoadFactor > 0 ? nLoadFactor : (size_t) 1 )
-                , m_nCapacity( cds::beans::ceil2( nItemCount / m_nLoadFactor ))
+                , m_nCapacity( nItemCount / m_nLoadFactor <= 2 ? (size_t) 2 : cds::beans::ceil2( nItemCount / m_nLoadFactor ))
                 , m_nAuxNodeAllocated( 0 )
             {
+                // The split-list starts with two buckets, so the table must have at least two entries
                 // m_nCapacity must be power of 2
                 assert( cds::beans::is_power2( m_nCapacity ));
                 allocate_table();
